@@ -24,6 +24,7 @@ from vcore import Infra, pyres
 
 TESTDATA = "/repo/tests/nxpimage/data"
 FINDING_MISDETECT = "C14-later-start-misdetected"
+FINDING_OTHER_MEMTYPE = "C14-untyped-parse-other-memtype"
 APP_PARSERS = ("SegmentMbi", "SegmentHab", "SegmentAhab", "SegmentSB21", "SegmentSB31")
 
 
@@ -222,6 +223,14 @@ class Tables:
             out.append((kd, None if off < 0 else (off + kd["align"] - 1) // kd["align"] * kd["align"]))
         return out
 
+    def memtypes(self, family, revision):
+        """rows of all memory types of (family, revision) in database order (= order in which parse tries them)"""
+        if not hasattr(self, "_mt"):
+            self._mt = {}
+            for r in self.rows:
+                self._mt.setdefault((r["family"], r["revision"]), []).append(r)
+        return self._mt[(family, revision)]
+
     def pattern_byte(self, row):
         return {"zeros": 0x00, "ones": 0xFF}.get(self.layouts[row["layout"]]["pattern"])
 
@@ -349,6 +358,8 @@ def gen_cases(T, row, rng, quick):
                 spec[kd["label"]] = header_spec(T, row, segs, i, rng, size_class)
         for init in inits:
             out.append({"row": [row["family"], row["revision"], row["mem_type"]], "init": init, "segs": spec, "sizes": size_class})
+            if mi == 0 or (not quick and mi % 4 == 1):
+                out[-1]["extra"] = 1   # also pre_parse_verify and parse without memory type
         # one request that is not exactly a segment offset (the setter rounds up); requests by segment name are covered by the
         # init_offset stream through the constructor (the configuration schema only admits numbers)
         if mi == 0 and len(statics) > 1:
@@ -529,6 +540,42 @@ def run_case(T, F, case, rowinfo, full_cache):
             ok = got == raw
         if not ok:
             fail(f"parse does not recover the bytes of segment {kd['label']}", (len(got), got[:16].hex()), (len(raw), raw[:16].hex()), finding)
+    # ---- pre_parse_verify (the walk of `nxpimage bootable-image verify`) must not object to an exported image
+    if case.get("extra"):
+        pv = pyres(lambda: BootableImage.pre_parse_verify(data, fam, MemoryType.from_label(mt), rev).has_errors)
+        if pv != ("ok", False):
+            fail("pre_parse_verify reports errors for an image that export() produced", pv, None, finding)
+    # ---- parse without memory type: every memory type of the family is tried in database order
+    if case.get("extra") and finding is None:
+        mts = T.memtypes(fam, rev)
+        own = next(i for i, r in enumerate(mts) if r["mem_type"] == mt)
+        pa = pyres(BootableImage.parse, data, fam, None, rev)
+        if pa[0] != "ok":
+            res["any"] = "A:" + pa[0]
+            fail("BootableImage.parse without memory type does not accept the image that export() produced", pa)
+            return res
+        pa = pa[1]
+        w = next((i for i, r in enumerate(mts) if r["mem_type"] == pa.mem_type.label), -1)
+        wsegs = T.segs(mts[w])
+        fnd = []
+        for (kd, off), s in zip(wsegs, pa._segments):
+            pres = pyres(lambda s=s: (not s.excluded) and s.is_present)
+            if pres[0] == "ok" and pres[1]:
+                raw = s.export()
+                o = pyres(pa.get_segment_offset, s)
+                fnd.append(f"{o[1] if o[0] == 'ok' else 'x'}:{len(raw)}:{adler(raw)}")
+            else:
+                fnd.append("-")
+        res["any"] = f"A:{w};{pa.init_offset};{','.join(fnd)}"
+        res["any_req"] = (own, [r["layout"] for r in mts])
+        if w > own:
+            fail("parse without memory type answers a memory type that comes after the one the image was made for", pa.mem_type.label, mt)
+        elif mts[w]["layout"] == rowinfo["layout"]:
+            if res["any"][2:].split(";", 1)[1] != res["parse"][2:]:
+                fail("parse without memory type (same segment table) recovers something else than parse with the memory type", res["any"], res["parse"])
+        else:
+            fail("parse without memory type accepts the image under another memory type's segment table", (pa.mem_type.label, res["any"]), (mt, res["parse"]),
+                 FINDING_OTHER_MEMTYPE)
     return res
 
 
@@ -610,6 +657,9 @@ def feed(ck, s, drv, T, results):
                 init = seg_off if seg_off is not None else 0
             real = r["merge"] + ("|" + r["parse"] if r["parse"] is not None else "")
             reqs.append((case, f"rt {r['layout']} {int(r['fcb'])} {init} {' '.join(r['toks'])}", real, bool(r.get("finding"))))
+            if r.get("any") is not None and r.get("any_req") is not None:
+                own, lays = r["any_req"]
+                reqs.append((case, f"rtany {int(r['fcb'])} {init} {own} {len(lays)} {' '.join(map(str, lays))} {' '.join(r['toks'])}", r["any"], False))
     if drv is not None and reqs:
         for (case, line, real, merge_only), ans in zip(reqs, drv.batch([q[1] for q in reqs])):
             if case is None:
